@@ -333,3 +333,34 @@ m("c13-missing-count", ["C13"], "osaca/frontend.py",
 m("c13-length-threshold", ["C13"], "osaca/osaca.py",
   "            True if len(kernel) == len(parsed_code) and len(kernel) > 100 else False",
   "            True if len(kernel) == len(parsed_code) and len(kernel) > 150 else False")
+
+# ---- C20
+m("c20-range-9", ["C20"], "osaca/db_interface.py",
+  "        reciprocals = [1 / x for x in range(1, 11)]", "        reciprocals = [1 / x for x in range(1, 10)]")
+m("c20-tolerance", ["C20"], "osaca/db_interface.py",
+  "            if reci * 0.95 <= measurement <= reci * 1.05:", "            if reci * 0.9 <= measurement <= reci * 1.1:")
+m("c20-tp-lt-swapped", ["C20"], "osaca/db_interface.py",
+  """                throughput=_validate_measurement(float(input_data[i + 2].split()[1]), "tp"),
+                latency=_validate_measurement(float(input_data[i + 1].split()[1]), "lt"),""",
+  """                throughput=_validate_measurement(float(input_data[i + 1].split()[1]), "tp"),
+                latency=_validate_measurement(float(input_data[i + 2].split()[1]), "lt"),""")
+m("c20-y-as-xmm", ["C20"], "osaca/db_interface.py",
+  '        return {"class": "register", "name": operand + "mm"}',
+  '        return {"class": "register", "name": ("x" if operand == "y" else operand) + "mm"}')
+m("c20-continue-after-malformed", ["C20"], "osaca/db_interface.py",
+  """                "Entry {} and all further entries won't be added.".format((i / 4) + 1),
+                file=sys.stderr,
+            )
+            break""",
+  """                "Entry {} and all further entries won't be added.".format((i / 4) + 1),
+                file=sys.stderr,
+            )
+            continue""")
+m("c20-lt-always-round", ["C20"], "osaca/db_interface.py",
+  "            math.floor(measurement) * 1.05 >= measurement\n            or math.ceil(measurement) * 0.95 <= measurement",
+  "            math.floor(measurement) * 1.05 >= measurement\n            or math.ceil(measurement) * 0.75 <= measurement")
+m("c20-a64-post-pre-swapped", ["C20"], "osaca/db_interface.py",
+  '            "pre_indexed": True if "r" in operand else False,\n            "post_indexed": True if "p" in operand else False,',
+  '            "pre_indexed": True if "p" in operand else False,\n            "post_indexed": True if "r" in operand else False,')
+m("c20-merge-lost", ["C20"], "osaca/db_interface.py",
+  '        key = "-".join(instruction.split("-")[:2])', '        key = instruction')
